@@ -45,6 +45,8 @@ def pick_frame(rnd, U, want_int=False):
     scale = 2.0 ** k
     if k >= 0:
         t = rnd.choice([0, 0, 1, -7, 1000, -10000, 4096])
+        if k <= 1 and rnd.random() < 0.25:
+            t = rnd.choice([10 ** 6, -3 * 10 ** 6, 2 ** 24])        # a small shape very far from the origin (still exact in doubles)
     else:
         t = rnd.choice([0, 0, 1, -7]) * 1.0
     return geom.Frame(U, scale, float(t), float(-t if rnd.random() < 0.5 else t // 3), rnd.randint(0, 5), ints=want_int)
